@@ -49,10 +49,11 @@ theorem chainVal_append (ms ns : List M) (t : Val) : chainVal (ms ++ ns) t = cha
   | nil => rfl
   | cons m ms ih => simp [chainVal, ih]
 
-theorem wrap_size (m : M) (t : Val) : t.size < (m.wrap t).size := by
-  cases m <;> simp [M.wrap, mk, Val.size, Val.sizeL] <;> omega
+theorem wrap_size (m : M) (t : Val) : t.tlen < (m.wrap t).tlen := by
+  have := Val.tlen_getType (m.wrap t) t (wrap_getType m t)
+  exact this
 
-theorem chain_size (ms : List M) (t : Val) : ms.length + t.size ≤ (chainVal ms t).size := by
+theorem chain_size (ms : List M) (t : Val) : ms.length + t.tlen ≤ (chainVal ms t).tlen := by
   induction ms with
   | nil => simp [chainVal]
   | cons m ms ih => have := wrap_size m (chainVal ms t); simp only [chainVal, List.length_cons]; omega
